@@ -126,7 +126,7 @@ pub(crate) fn compiled_dfa_render<W: Write>(
         .set_label(
             format!(
                 "{}: {}...",
-                label,
+                label.escape_default(),
                 compiled_dfa.pattern(0.into()).escape_default()
             )
             .as_str(),
